@@ -408,4 +408,55 @@ theorem ising_supportLe (s s' : IsingSpec) (h : s.SameSigns s') : SupportLe s.ha
         · exact Or.inl ⟨h3, h4, hpos h5⟩
         · exact Or.inr ⟨h3, h4, hneg h5⟩
 
+/-! ### ladders that mix a zero-field replica with field replicas -/
+
+/-- same lattice, couplings of the same sign, positive transverse field of the receiver; nothing is
+assumed about the longitudinal fields (`can_swap_managers` accepts `h = 0` next to `h > 0`,
+because `signum(0.0) = signum(+h)`) -/
+def IsingSpec.SameLattice (s s' : IsingSpec) : Prop :=
+  s'.nvars = s.nvars ∧ s'.nedges = s.nedges ∧
+  (∀ b, b < s.nedges → s'.edgeVars b = s.edgeVars b ∧ (s.J b < 0 → s'.J b < 0) ∧ (0 < s.J b → 0 < s'.J b)) ∧
+  0 < s'.gamma
+
+/-- a string WITHOUT longitudinal-field operators is legal for any replica of the lattice,
+whatever the two fields are -/
+theorem ising_transfer_no_field_ops (s s' : IsingSpec) (h : s.SameLattice s') (c : Config)
+    (hl : Legal s.ham c) (hnf : ∀ o, some o ∈ c.slots → o.bond < s.nedges + s.nvars) :
+    Legal s'.ham c := by
+  obtain ⟨hn, he, hedge, hg⟩ := h
+  intro o ho
+  obtain ⟨l1, l2, l3, l4, l5, l6⟩ := hl o ho
+  have hb := hnf o ho
+  have hnb' : s'.ham.nbonds = s'.nedges + s'.nvars + (if s'.h = 0 then 0 else s'.nvars) := rfl
+  refine ⟨by rw [hnb']; omega, ?_, ?_, l4, l5, ?_⟩
+  · rw [l2]
+    by_cases h1 : o.bond < s.nedges
+    · have h1' : o.bond < s'.nedges := by omega
+      simp only [IsingSpec.ham, h1, h1', ite_true]
+      exact ((hedge _ h1).1).symm
+    · simp only [IsingSpec.ham, he, hn, h1, hb, ite_true, ite_false]
+  · rw [l3]; simp only [IsingSpec.ham, he, hn]
+  · by_cases h1 : o.bond < s.nedges
+    · rw [IsingSpec.w_edge s _ _ _ h1] at l6
+      rw [IsingSpec.w_edge s' _ _ _ (by omega)]
+      obtain ⟨x, y, hx, hy, hs⟩ := twoSite_pos_shape l6
+      rw [hx, hy, twoSite_pos_iff]
+      refine ⟨rfl, rfl, ?_⟩
+      rcases hs with ⟨h3, h4⟩ | ⟨h3, h4⟩
+      · exact Or.inl ⟨h3, (hedge _ h1).2.1 h4⟩
+      · exact Or.inr ⟨h3, (hedge _ h1).2.2 h4⟩
+    · rw [IsingSpec.w_transverse s' _ _ _ (by omega) (by omega)]
+      exact hg
+
+/-- a longitudinal-field operator is not a term of a zero-field replica at all: a swap that
+would move one there must be refused -/
+theorem ising_field_op_illegal_without_field (s' : IsingSpec) (o : Op) (h0 : s'.h = 0)
+    (hb : s'.nedges + s'.nvars ≤ o.bond) : ¬ o.LegalFor s'.ham := by
+  intro hl
+  have h1 := hl.1
+  have hnb' : s'.ham.nbonds = s'.nedges + s'.nvars + (if s'.h = 0 then 0 else s'.nvars) := rfl
+  rw [hnb'] at h1
+  simp only [h0, ite_true] at h1
+  omega
+
 end Qmc
